@@ -1,6 +1,9 @@
 package main
 
-import "sort"
+import (
+	"bytes"
+	"sort"
+)
 
 // C07: binary data bytes at every position of text seeds, inside and outside the limit; BOMs with
 // binary tails; the empty input.  C17: every limit for every seed.
@@ -211,6 +214,20 @@ func runC17(c *runCtx) {
 				y = y[:maxLen+80]
 			}
 			c.c17Case(s.kind+"+inject", y)
+		}
+	}
+	// short positives continued by arbitrary bytes: a detector that validates something at an offset it reads from the
+	// content (a declared header size, a sector id) only "when the header was read that far" flips with the limit
+	for _, s := range allSeeds(c.rng, "/repo") {
+		x := s.data
+		if len(x) < 2 || len(x) > 700 {
+			continue
+		}
+		for k, fill := range [][]byte{randBytes(c.rng, 420), bytes.Repeat([]byte{0}, 420), bytes.Repeat([]byte{0xFF}, 420), bytes.Repeat([]byte("A\r\n"), 140)} {
+			if k > 0 && c.tier != "thorough" && c.rng.Intn(3) != 0 {
+				continue
+			}
+			c.c17Case(s.kind+"+junk", cat(x, fill))
 		}
 	}
 	// ttf / access hand-over family
